@@ -1,1 +1,491 @@
-(* placeholder *)
+(* Proofs about the event-level model of host promotion (Promotion.v): C07 and the defect S8. *)
+From Coq Require Import NArith List Lia.
+From stdpp Require Import gmap list.
+From RecordUpdate Require Import RecordSet.
+From BS Require Import Abs.Promotion.
+Import RecordSetNotations.
+
+Local Open Scope N_scope.
+
+(* ================================================================================================
+   Part 0: the enumeration of events is complete; stability is decidable
+   ================================================================================================ *)
+
+Lemma elem_of_peers_of s p : p ∈ peers_of s <-> is_Some (ps s !! p).
+Proof.
+  unfold peers_of. rewrite elem_of_list_fmap. split.
+  - intros [[q x] [-> Hin]]. apply elem_of_map_to_list in Hin. simpl. eauto.
+  - intros [x Hx]. exists (p, x). split; [reflexivity|]. apply elem_of_map_to_list. exact Hx.
+Qed.
+
+Lemma step_peers s e s' : step s e = Some s' -> Forall (fun p => is_Some (ps s !! p)) (epeers e).
+Proof.
+  intros Hs. destruct e as [h c|h c|c h|p|p|p|p|p|h|c|c|h c]; simpl in Hs |- *;
+    repeat match goal with
+           | H : context [ps s !! ?q] |- _ =>
+               lazymatch goal with
+               | Hq : ps s !! q = _ |- _ => fail
+               | _ => destruct (ps s !! q) eqn:?; try discriminate
+               end
+           end;
+    repeat constructor; eauto.
+Qed.
+
+Lemma in_events1 s p e : p ∈ peers_of s -> e ∈ events1 p -> e ∈ events_of s.
+Proof.
+  intros Hp He. unfold events_of. apply elem_of_app. left. apply elem_of_list_bind. exists p. split; assumption.
+Qed.
+Lemma in_events2 s a b e : a ∈ peers_of s -> b ∈ peers_of s -> e ∈ events2 a b -> e ∈ events_of s.
+Proof.
+  intros Ha Hb He. unfold events_of. apply elem_of_app. right. apply elem_of_list_bind. exists a. split; [|assumption].
+  apply elem_of_list_bind. exists b. split; assumption.
+Qed.
+
+Lemma events_of_complete s e s' : internal e = true -> step s e = Some s' -> e ∈ events_of s.
+Proof.
+  intros Hi Hs. pose proof (step_peers _ _ _ Hs) as Hp.
+  destruct e as [h c|h c|c h|p|p|p|p|p|h|c|c|h c]; simpl in Hi, Hp; try discriminate;
+    repeat match goal with H : Forall _ (_ :: _) |- _ => apply Forall_cons in H as [? H] end;
+    repeat match goal with H : is_Some (ps s !! _) |- _ => apply elem_of_peers_of in H end.
+  - apply (in_events2 s h c); [assumption..|]. unfold events2. repeat constructor.
+  - apply (in_events2 s c h); [assumption..|]. unfold events2. repeat constructor.
+  - apply (in_events1 s p); [assumption|]. unfold events1. repeat constructor.
+  - apply (in_events1 s p); [assumption|]. unfold events1. repeat constructor.
+  - apply (in_events1 s p); [assumption|]. unfold events1. repeat constructor.
+  - apply (in_events1 s p); [assumption|]. unfold events1. repeat constructor.
+  - apply (in_events1 s p); [assumption|]. unfold events1. repeat constructor.
+  - apply (in_events1 s h); [assumption|]. unfold events1. repeat constructor.
+  - apply (in_events1 s c); [assumption|]. unfold events1. repeat constructor.
+  - apply (in_events1 s c); [assumption|]. unfold events1. repeat constructor.
+  - apply (in_events2 s h c); [assumption..|]. unfold events2. repeat constructor.
+Qed.
+
+Lemma events_of_internal s e : e ∈ events_of s -> internal e = true.
+Proof.
+  unfold events_of. rewrite elem_of_app, !elem_of_list_bind.
+  intros [(p & He & _)|(a & He & _)].
+  - unfold events1 in He. set_unfold. naive_solver.
+  - apply elem_of_list_bind in He as (b & He & _). unfold events2 in He. set_unfold. naive_solver.
+Qed.
+
+Lemma stableb_true s : stableb s = true <-> stable s.
+Proof.
+  unfold stableb, stable. rewrite forallb_forall. split.
+  - intros H e Hi. destruct (step s e) as [s'|] eqn:Hs; [|reflexivity].
+    specialize (H e). rewrite Hs in H. exfalso.
+    assert (false = true) by (apply H, elem_of_list_In; eapply events_of_complete; eauto). discriminate.
+  - intros H e Hin. rewrite H; [reflexivity|]. apply elem_of_list_In in Hin. eapply events_of_internal; eauto.
+Qed.
+
+Global Instance stable_dec s : Decision (stable s).
+Proof. destruct (stableb s) eqn:H; [left; apply stableb_true; exact H|right; intros Hs; apply stableb_true in Hs; congruence]. Defined.
+
+Lemma not_stable s : ~ stable s -> exists e s', internal e = true /\ step s e = Some s'.
+Proof.
+  intros Hn. destruct (stableb s) eqn:Hb; [exfalso; apply Hn, stableb_true; exact Hb|].
+  unfold stableb in Hb. apply not_true_iff_false in Hb. rewrite forallb_forall in Hb.
+  destruct (decide (Exists (fun e => is_Some (step s e)) (events_of s))) as [Hex|Hnex].
+  - apply Exists_exists in Hex as (e & Hin & [s' Hs']). exists e, s'. split; [|exact Hs'].
+    eapply events_of_internal; eauto.
+  - exfalso. apply Hb. intros e Hin. destruct (step s e) eqn:Hs; [|reflexivity].
+    exfalso. apply Hnex. apply Exists_exists. exists e. split; [apply elem_of_list_In; exact Hin|eauto].
+Qed.
+
+(* ================================================================================================
+   Part 1: soundness of the exhaustive check
+   ================================================================================================ *)
+
+Lemma inb_true s R : inb s R = true <-> s ∈ R.
+Proof. unfold inb. apply bool_decide_eq_true. Qed.
+
+Lemma check_step good R s e s' :
+  checkb good R = true -> s ∈ R -> internal e = true -> step s e = Some s' ->
+  s' ∈ R /\ (measure s' < measure s)%nat.
+Proof.
+  unfold checkb. rewrite forallb_forall. intros Hc Hin Hi Hs.
+  specialize (Hc s (proj1 (elem_of_list_In _ _) Hin)). apply andb_true_iff in Hc as [Hc _].
+  rewrite forallb_forall in Hc. specialize (Hc e (proj1 (elem_of_list_In _ _) (events_of_complete _ _ _ Hi Hs))).
+  rewrite Hs in Hc. apply andb_true_iff in Hc as [H1 H2]. split; [apply inb_true; exact H1|apply Nat.ltb_lt; exact H2].
+Qed.
+
+Lemma check_stable good R s : checkb good R = true -> s ∈ R -> stable s -> good s = true.
+Proof.
+  unfold checkb. rewrite forallb_forall. intros Hc Hin Hst.
+  specialize (Hc s (proj1 (elem_of_list_In _ _) Hin)). apply andb_true_iff in Hc as [_ Hc].
+  apply orb_true_iff in Hc as [Hc|Hc]; [|exact Hc].
+  apply stableb_true in Hst. rewrite Hst in Hc. discriminate.
+Qed.
+
+Lemma check_run good R : checkb good R = true -> forall tr s s',
+  s ∈ R -> all_internal tr -> run s tr = Some s' -> s' ∈ R /\ (length tr + measure s' <= measure s)%nat.
+Proof.
+  intros Hc tr. induction tr as [|e tr IH]; intros s s' Hin Hall Hrun; simpl in Hrun.
+  - inversion Hrun; subst. split; [exact Hin|simpl; lia].
+  - destruct (step s e) as [s1|] eqn:Hs; [|discriminate].
+    apply Forall_cons in Hall as [Hi Hall].
+    destruct (check_step _ _ _ _ _ Hc Hin Hi Hs) as [Hin1 Hlt].
+    destruct (IH _ _ Hin1 Hall Hrun) as [Hin' Hle]. split; [exact Hin'|simpl; lia].
+Qed.
+
+(* every run can be completed to a stable state (inside a checked set) *)
+Lemma check_completes good R : checkb good R = true -> forall s, s ∈ R ->
+  exists tr s', all_internal tr /\ run s tr = Some s' /\ stable s' /\ good s' = true.
+Proof.
+  intros Hc s. remember (measure s) as m eqn:Hm. revert s Hm.
+  induction m as [m IH] using lt_wf_ind. intros s -> Hin.
+  destruct (decide (stable s)) as [Hst|Hn].
+  - exists [], s. split; [constructor|]. split; [reflexivity|]. split; [exact Hst|]. eapply check_stable; eauto.
+  - destruct (not_stable _ Hn) as (e & s1 & Hi & Hs).
+    destruct (check_step _ _ _ _ _ Hc Hin Hi Hs) as [Hin1 Hlt].
+    destruct (IH _ Hlt s1 eq_refl Hin1) as (tr & s' & Hall & Hrun & Hst & Hg).
+    exists (e :: tr), s'. split; [constructor; assumption|]. split; [simpl; rewrite Hs; exact Hrun|]. auto.
+Qed.
+
+Lemma run_app s tr1 tr2 : run s (tr1 ++ tr2) = match run s tr1 with Some s1 => run s1 tr2 | None => None end.
+Proof. revert s. induction tr1 as [|e tr1 IH]; intros s; simpl; [reflexivity|]. destruct (step s e); [apply IH|reflexivity]. Qed.
+
+Lemma handed_overb_true s h c : handed_overb s h c = true -> handed_over s h c.
+Proof.
+  unfold handed_overb, handed_over, no_traffic. destruct (ps s !! h) as [x|]; [|discriminate].
+  destruct (ps s !! c) as [y|]; [|discriminate].
+  rewrite !andb_true_iff, !bool_decide_eq_true. intros [[[[[H1 H2] H3] H4] H5] H6]. eauto 10.
+Qed.
+
+Lemma chain_brokenb_true s h k : chain_brokenb s h k = true -> chain_broken s h k.
+Proof.
+  unfold chain_brokenb, chain_broken, no_traffic. destruct (ps s !! k) as [x|]; [|discriminate].
+  destruct (ps s !! h) as [y|]; [|discriminate].
+  rewrite !andb_true_iff, !bool_decide_eq_true. intros [[[[H1 H2] H3] H4] H5]. split; [|auto]. exists x, y. tauto.
+Qed.
+
+Lemma s8_outcomeb_true s : s8_outcomeb s = true -> s8_outcome s.
+Proof.
+  unfold s8_outcomeb, s8_outcome. repeat case_match; try discriminate.
+  rewrite bool_decide_eq_true. intros Hb. eexists _, _, _. tauto.
+Qed.
+
+(* ================================================================================================
+   Part 2: C07 with ONE client -- every interleaving, with a termination measure
+   ================================================================================================ *)
+
+(* the initial state of the theorem, said without [session]: *)
+Example session_1_roles : handed_over (session 1) 0 1.
+Proof. apply handed_overb_true. vm_compute. reflexivity. Qed.
+Example promoted_1_1 : step (session 1) (EPromote 0 1) = Some (promoted 1 1) /\ promoted 1 1 = push_down (session 1) 0 1 Promote.
+Proof. split; vm_compute; reflexivity. Qed.
+
+(* all states reachable after the request, computed *)
+Definition R1 : list pstate := default [] (explore 1000 [promoted 1 1] []).
+Lemma R1_checked : checkb (fun s => handed_overb s 1 0) R1 = true.
+Proof. vm_compute. reflexivity. Qed.
+Lemma R1_start : promoted 1 1 ∈ R1.
+Proof. apply inb_true. vm_compute. reflexivity. Qed.
+
+Theorem C07_single_client_promotion :
+  forall tr s, all_internal tr -> run (promoted 1 1) tr = Some s ->
+    (* termination: [measure] drops by at least 1 with every event, whatever the interleaving *)
+    (length tr + measure s <= measure (promoted 1 1%N))%nat
+    (* a run that cannot be continued has handed the session over *)
+    /\ (stable s -> handed_over s 1 0)
+    (* any other run can be continued, and every continuation decreases the measure *)
+    /\ (~ stable s -> exists e s', internal e = true /\ step s e = Some s' /\ (measure s' < measure s)%nat)
+    /\ (exists tr' s', all_internal tr' /\ run s tr' = Some s' /\ stable s' /\ handed_over s' 1 0).
+Proof.
+  intros tr s Hall Hrun.
+  destruct (check_run _ _ R1_checked _ _ _ R1_start Hall Hrun) as [Hin Hle].
+  split; [exact Hle|]. split; [|split].
+  - intros Hst. apply handed_overb_true. exact (check_stable _ _ _ R1_checked Hin Hst).
+  - intros Hn. destruct (not_stable _ Hn) as (e & s' & Hi & Hs). exists e, s'.
+    split; [exact Hi|]. split; [exact Hs|]. exact (proj2 (check_step _ _ _ _ _ R1_checked Hin Hi Hs)).
+  - destruct (check_completes _ _ R1_checked _ Hin) as (tr' & s' & H1 & H2 & H3 & H4).
+    exists tr', s'. split; [exact H1|]. split; [exact H2|]. split; [exact H3|]. apply handed_overb_true. exact H4.
+Qed.
+Print Assumptions C07_single_client_promotion.
+
+Example measure_promoted_1_1 : measure (promoted 1 1) = 27%nat.
+Proof. vm_compute. reflexivity. Qed.
+
+(* no run after the request has more than 27 events *)
+Corollary C07_single_client_bound tr s : all_internal tr -> run (promoted 1 1) tr = Some s -> (length tr <= 27)%nat.
+Proof. intros Ha Hr. destruct (C07_single_client_promotion _ _ Ha Hr) as [H _]. rewrite measure_promoted_1_1 in H. lia. Qed.
+
+(* ================================================================================================
+   Part 3: one step, seen from one peer (all N, all events)
+   ================================================================================================ *)
+
+Lemma ps_setp s p x : ps (setp s p x) = <[p := x]> (ps s).
+Proof. reflexivity. Qed.
+Lemma ps_push_up s a b m : ps (push_up s a b m) = ps s.
+Proof. reflexivity. Qed.
+Lemma ps_push_down s a b m : ps (push_down s a b m) = ps s.
+Proof. reflexivity. Qed.
+Lemma ps_drop_link s a b : ps (drop_link s a b) = ps s.
+Proof. reflexivity. Qed.
+Lemma ps_drop_link_of s a t : ps (drop_link_of s a t) = ps s.
+Proof. destruct t; reflexivity. Qed.
+Lemma ps_relay s h l m : ps (relay s h l m) = ps s.
+Proof. induction l as [|d l IH]; simpl; [reflexivity|]. exact IH. Qed.
+Lemma ps_mk a b c : ps (PState a b c) = a.
+Proof. reflexivity. Qed.
+
+Ltac pssimpl :=
+  repeat first [ rewrite ps_relay | rewrite ps_drop_link_of | rewrite ps_drop_link | rewrite ps_push_up
+               | rewrite ps_push_down | rewrite ps_setp | rewrite ps_mk ].
+
+(* case analysis of one step: one goal per branch of [step] that returns Some *)
+Ltac step_inv Hs :=
+  unfold step in Hs;
+  repeat (match type of Hs with context [match ?t with _ => _ end] => destruct t eqn:? end; try discriminate);
+  injection Hs as <-.
+
+Ltac ins_cases :=
+  repeat match goal with
+         | |- context [<[?a := _]> _ !! ?p] =>
+             destruct (decide (a = p)) as [->|?];
+             [rewrite lookup_insert | rewrite lookup_insert_ne by assumption]
+         end.
+
+Definition pget {A} (f : ppeer -> A) (d : A) (s : pstate) (p : peer) : A :=
+  match ps s !! p with Some x => f x | None => d end.
+
+(* the RenetClient object is never reconstructed: no event resets [sticky] *)
+Lemma sticky_step s e s' p : step s e = Some s' -> pget sticky false s p = true -> pget sticky false s' p = true.
+Proof.
+  intros Hs Hp. unfold pget in *. destruct e; step_inv Hs; pssimpl; ins_cases;
+    repeat match goal with H : ps s !! ?q = Some _, H' : context [ps s !! ?q] |- _ => rewrite H in H' end;
+    simpl; try assumption; try reflexivity.
+Qed.
+
+Ltac bool_hyps :=
+  repeat match goal with
+         | H : _ && _ = true |- _ => apply andb_true_iff in H as [? ?]
+         | H : negb _ = true |- _ => apply negb_true_iff in H
+         | H : negb _ = false |- _ => apply negb_false_iff in H
+         | H : bool_decide _ = true |- _ => apply bool_decide_eq_true in H
+         | H : bool_decide _ = false |- _ => apply bool_decide_eq_false in H
+         end.
+
+Ltac same_lookup :=
+  repeat match goal with
+         | H : ps ?s !! ?q = Some _, H' : ps ?s !! ?q = Some _ |- _ => rewrite H in H'; injection H' as <-
+         | H : ps ?s !! ?q = Some _, H' : ps ?s !! ?q = None |- _ => rewrite H in H'; discriminate
+         end.
+
+Definition strandedP (s : pstate) (p : peer) : Prop := pget stranded False s p.
+
+(* S8, the stuck lemma: once stranded, for ever stranded -- whatever happens afterwards, new
+   promotions by the application included, in a session of any size *)
+Lemma stranded_step s e s' p : step s e = Some s' -> strandedP s p -> strandedP s' p.
+Proof.
+  intros Hs Hp. unfold strandedP, pget in *. destruct (ps s !! p) as [xp|] eqn:Hxp; [|contradiction].
+  destruct Hp as (S1 & S2 & S3 & S4 & S5 & S6).
+  destruct e; step_inv Hs; pssimpl; ins_cases; same_lookup; rewrite ?Hxp; bool_hyps;
+    unfold stranded, srv_gate, cli_gate in *; simpl; bool_hyps;
+    try (split_and?; (assumption || reflexivity || eauto));
+    try congruence.
+  rewrite S4 in Heqb0. discriminate.
+Qed.
+
+Lemma stranded_run tr : forall s s' p, run s tr = Some s' -> strandedP s p -> strandedP s' p.
+Proof.
+  induction tr as [|e tr IH]; intros s s' p Hrun Hp; simpl in Hrun.
+  - inversion Hrun; subst. exact Hp.
+  - destruct (step s e) as [s1|] eqn:Hs; [|discriminate]. eapply IH; [exact Hrun|]. eapply stranded_step; eauto.
+Qed.
+
+Lemma sticky_run tr : forall s s' p, run s tr = Some s' -> pget sticky false s p = true -> pget sticky false s' p = true.
+Proof.
+  induction tr as [|e tr IH]; intros s s' p Hrun Hp; simpl in Hrun.
+  - inversion Hrun; subst. exact Hp.
+  - destruct (step s e) as [s1|] eqn:Hs; [|discriminate]. eapply IH; [exact Hrun|]. eapply sticky_step; eauto.
+Qed.
+
+(* in particular a stranded client is never linked again and never leaves ClientState::Connected *)
+Corollary stranded_never_connects tr s s' p :
+  run s tr = Some s' -> strandedP s p ->
+  exists x, ps s' !! p = Some x /\ link_up x = false /\ cli_state x = CConnected /\ sticky x = true.
+Proof.
+  intros Hrun Hp. pose proof (stranded_run _ _ _ _ Hrun Hp) as H. unfold strandedP, pget in H.
+  destruct (ps s' !! p) as [x|]; [|contradiction]. exists x. unfold stranded in H. tauto.
+Qed.
+Print Assumptions stranded_never_connects.
+
+(* ================================================================================================
+   Part 4: S8 -- promotion with TWO clients
+   ================================================================================================ *)
+
+Example session_2_roles :
+  roles (session 2) = [(0, (true, SConnected, [1; 2], None, CDisconnected, false, false, false));
+                       (1, (false, SDisconnected, [], Some 0, CConnected, true, false, false));
+                       (2, (false, SDisconnected, [], Some 0, CConnected, true, false, false))].
+Proof. vm_compute. reflexivity. Qed.
+
+(* the witness run of Promotion.v (without its first event, the request itself) *)
+Definition s8_run : list pevent := tail ex_two_clients.
+Definition s8_state : pstate := default (session 2) (run (promoted 2 1) s8_run).
+
+Example s8_run_runs : all_internal s8_run /\ run (promoted 2 1) s8_run = Some s8_state.
+Proof. split; [unfold all_internal; repeat constructor|vm_compute; reflexivity]. Qed.
+Example s8_state_roles :
+  roles s8_state = [(0, (true, SConnected, [], Some 1, CConnected, true, false, false));
+                    (1, (true, SConnected, [0], None, CDisconnected, false, true, false));
+                    (2, (false, SDisconnected, [], Some 1, CConnected, false, true, true))]
+  /\ enabled s8_state = [] /\ no_traffic s8_state.
+Proof.
+  split; [vm_compute; reflexivity|]. split; [vm_compute; reflexivity|].
+  split; apply (bool_decide_unpack _); vm_compute; exact I.
+Qed.
+
+Theorem C07_refuted_two_clients :
+  exists tr s,
+    all_internal tr /\ run (promoted 2 1) tr = Some s /\
+    stable s /\                                  (* nothing will happen any more *)
+    hosts s = [0; 1] /\                          (* two peers host *)
+    s8_outcome s /\ strandedP s 2 /\             (* 2: ClientState Connected, RenetClient dead *)
+    (forall tr' s', run s tr' = Some s' ->       (* and no continuation whatsoever repairs it *)
+       exists x, ps s' !! 2 = Some x /\ link_up x = false /\ cli_state x = CConnected /\ sticky x = true).
+Proof.
+  exists s8_run, s8_state. destruct s8_run_runs as [Ha Hr].
+  assert (Hst : strandedP s8_state 2).
+  { unfold strandedP, pget. vm_compute. repeat split; eauto. }
+  split; [exact Ha|]. split; [exact Hr|]. split; [apply stableb_true; vm_compute; reflexivity|].
+  split; [vm_compute; reflexivity|]. split; [apply s8_outcomeb_true; vm_compute; reflexivity|].
+  split; [exact Hst|]. intros tr' s' Hrun. eapply stranded_never_connects; eauto.
+Qed.
+Print Assumptions C07_refuted_two_clients.
+
+Corollary C07_statement_two_clients_false : ~ C07_statement 2 1.
+Proof.
+  intros H. destruct C07_refuted_two_clients as (tr & s & Ha & Hr & Hst & Hh & _).
+  destruct (H tr s Ha Hr Hst) as [Hh' _]. rewrite Hh in Hh'. discriminate.
+Qed.
+
+(* stronger: with two clients NO interleaving succeeds.  Every run terminates, and every run that
+   cannot be continued ends with 0 moved over to 1 and 2 stranded *)
+Definition R2 : list pstate := default [] (explore (100 * 100) [promoted 2 1] []).
+Lemma R2_checked : checkb s8_outcomeb R2 = true.
+Proof. vm_compute. reflexivity. Qed.
+Lemma R2_start : promoted 2 1 ∈ R2.
+Proof. apply inb_true. vm_compute. reflexivity. Qed.
+
+Theorem C07_two_clients_every_run :
+  forall tr s, all_internal tr -> run (promoted 2 1) tr = Some s ->
+    (length tr + measure s <= measure (promoted 2 1%N))%nat
+    /\ (stable s -> s8_outcome s /\ strandedP s 2 /\ ~ session_ok s 1)
+    /\ (exists tr' s', all_internal tr' /\ run s tr' = Some s' /\ stable s' /\ s8_outcome s').
+Proof.
+  intros tr s Hall Hrun.
+  destruct (check_run _ _ R2_checked _ _ _ R2_start Hall Hrun) as [Hin Hle].
+  split; [exact Hle|]. split.
+  - intros Hst. pose proof (s8_outcomeb_true _ (check_stable _ _ _ R2_checked Hin Hst)) as Ho.
+    split; [exact Ho|]. destruct Ho as (x0 & x1 & x2 & H0 & H1 & H2 & Hs2 & Hrest).
+    split; [unfold strandedP, pget; rewrite H2; exact Hs2|].
+    intros [_ Hok]. destruct (Hok 2 x2 H2 ltac:(discriminate)) as (_ & Hl & _).
+    destruct Hs2 as (_ & _ & Hl' & _). congruence.
+  - destruct (check_completes _ _ R2_checked _ Hin) as (tr' & s' & H1 & H2 & H3 & H4).
+    exists tr', s'. split; [exact H1|]. split; [exact H2|]. split; [exact H3|]. apply s8_outcomeb_true. exact H4.
+Qed.
+Print Assumptions C07_two_clients_every_run.
+
+(* both endings occur: the old host closes its server (its last ClientDisconnected arrived while
+   the flag was still set) or keeps it for ever (verify_client_connected consumed the flag first) *)
+Example s8_other_ending :
+  (fun s => (hosts s, stableb s, s8_outcomeb s)) <$>
+  run (promoted 2 1) [EDeliverDown 0 1; ESrvUp 1; EDeliverUp 1 0; ENotify 0; EDeliverDown 0 2; ETimeout 0 2; ENotify 0;
+                      ESrvDown 0; ECliConnecting 0; ECliConnecting 2; EConnect 0; ENotify 1; ECliDown 1; EVerify 0;
+                      EDeliverUp 0 1]
+  = Some ([1], true, true).
+Proof. vm_compute. reflexivity. Qed.
+
+(* ================================================================================================
+   Part 6: a chain of promotions (two peers): promote 1, then promote 0 back
+   ================================================================================================ *)
+
+(* The first hand-over has exactly two outcomes.  They differ in ONE bit: whether the kick
+   (server.disconnect(1) on the old host) reached peer 1's RenetClient while peer 1 still had its
+   old client transport (ELinkDown 1 before ENotify 1) -- on a real network it does. *)
+Definition finals1 : list pstate := filter (fun s => stableb s = true) R1.
+Example finals1_roles :
+  roles <$> finals1 = [ [(0, (false, SDisconnected, [], Some 1, CConnected, true, false, false));
+                         (1, (true, SConnected, [0], None, CDisconnected, false, true, false))];
+                        [(0, (false, SDisconnected, [], Some 1, CConnected, true, false, false));
+                         (1, (true, SConnected, [0], None, CDisconnected, false, false, false))] ].
+Proof. vm_compute. reflexivity. Qed.
+
+Definition new_host_alive (F : pstate) : bool := negb (pget sticky true F 1).
+
+Definition chain_good (F s : pstate) : bool := if new_host_alive F then handed_overb s 0 1 else chain_brokenb s 1 0.
+Lemma chain_checked :
+  forallb (fun F => let s0 := promote_in F 1 0 in
+                    let R := default [] (explore 1000 [s0] []) in
+                    inb s0 R && checkb (chain_good F) R) finals1 = true.
+Proof. vm_compute. reflexivity. Qed.
+
+Lemma promote_back_enabled : forallb (fun F => bool_decide (step F (EPromote 1 0) = Some (promote_in F 1 0))) finals1 = true.
+Proof. vm_compute. reflexivity. Qed.
+
+(* C07_chain_of_promotions: the roles can be swapped back if and only if the RenetClient of the
+   first promoted peer survived the first hand-over.  If it did not (the normal case), the second
+   promotion ends -- in every interleaving -- with peer 0 hosting nobody, its flag stuck, and peer 1
+   in ClientState::Connecting for ever. *)
+Theorem C07_chain_of_promotions :
+  forall tr F, all_internal tr -> run (promoted 1 1) tr = Some F -> stable F ->
+    step F (EPromote 1 0) = Some (promote_in F 1 0) /\
+    forall tr' s, all_internal tr' -> run (promote_in F 1 0) tr' = Some s ->
+      (length tr' + measure s <= measure (promote_in F 1%N 0%N))%nat /\
+      (stable s -> if new_host_alive F then handed_over s 0 1 else chain_broken s 1 0) /\
+      (exists tr'' s', all_internal tr'' /\ run s tr'' = Some s' /\ stable s').
+Proof.
+  intros tr F Hall Hrun Hst.
+  destruct (check_run _ _ R1_checked _ _ _ R1_start Hall Hrun) as [Hin _].
+  assert (HF : F ∈ finals1).
+  { unfold finals1. apply elem_of_list_filter. split; [apply stableb_true; exact Hst|exact Hin]. }
+  pose proof chain_checked as Hc. rewrite forallb_forall in Hc.
+  specialize (Hc F (proj1 (elem_of_list_In _ _) HF)). cbv zeta in Hc.
+  apply andb_true_iff in Hc as [Hs0 Hc]. apply inb_true in Hs0.
+  pose proof promote_back_enabled as Hp. rewrite forallb_forall in Hp.
+  specialize (Hp F (proj1 (elem_of_list_In _ _) HF)). apply bool_decide_eq_true in Hp.
+  split; [exact Hp|]. intros tr' s Hall' Hrun'.
+  destruct (check_run _ _ Hc _ _ _ Hs0 Hall' Hrun') as [Hin' Hle].
+  split; [exact Hle|]. split.
+  - intros Hst'. pose proof (check_stable _ _ _ Hc Hin' Hst') as Hg. unfold chain_good in Hg.
+    destruct (new_host_alive F); [apply handed_overb_true|apply chain_brokenb_true]; exact Hg.
+  - destruct (check_completes _ _ Hc _ Hin') as (tr'' & s' & H1 & H2 & H3 & _). eauto.
+Qed.
+Print Assumptions C07_chain_of_promotions.
+
+(* both cases occur *)
+Example chain_alive_reachable :
+  exists tr F, all_internal tr /\ run (promoted 1 1) tr = Some F /\ stable F /\ new_host_alive F = true.
+Proof.
+  exists (tail ex_one_client), (default (session 1) (run (promoted 1 1) (tail ex_one_client))).
+  split; [unfold all_internal; repeat constructor|]. split; [vm_compute; reflexivity|].
+  split; [apply stableb_true; vm_compute; reflexivity|vm_compute; reflexivity].
+Qed.
+Example chain_dead_reachable :
+  exists tr F, all_internal tr /\ run (promoted 1 1) tr = Some F /\ stable F /\ new_host_alive F = false.
+Proof.
+  exists (tail ex_one_client_kicked), (default (session 1) (run (promoted 1 1) (tail ex_one_client_kicked))).
+  split; [unfold all_internal; repeat constructor|]. split; [vm_compute; reflexivity|].
+  split; [apply stableb_true; vm_compute; reflexivity|vm_compute; reflexivity].
+Qed.
+
+(* the failing second promotion, event by event *)
+Definition ex_chain_broken : list pevent :=
+  tail ex_one_client_kicked ++
+  [EPromote 1 0; EDeliverDown 1 0; ESrvUp 0; EDeliverUp 0 1; ENotify 1; ESrvDown 1; ECliConnecting 1; ELinkDown 0].
+Example ex_chain_broken_runs :
+  (fun s => (roles s, stableb s, chain_brokenb s 1 0)) <$> run (promoted 1 1) ex_chain_broken
+  = Some ([(0, (true, SConnected, [], Some 1, CConnected, false, true, true));
+           (1, (false, SDisconnected, [], Some 0, CConnecting, false, true, false))], true, true).
+Proof. vm_compute. reflexivity. Qed.
+(* and the succeeding one (possible only if the kick notice lost the race in the first hand-over) *)
+Definition ex_chain_ok : list pevent :=
+  tail ex_one_client ++
+  [EPromote 1 0; EDeliverDown 1 0; ESrvUp 0; EDeliverUp 0 1; ENotify 1; ESrvDown 1; ECliConnecting 1;
+   EConnect 1; ENotify 0; ECliDown 0; EVerify 1; EDeliverUp 1 0].
+Example ex_chain_ok_runs :
+  (fun s => (roles s, stableb s, bool_decide (s = session 1))) <$> run (promoted 1 1) ex_chain_ok
+  = Some ([(0, (true, SConnected, [1], None, CDisconnected, false, false, false));
+           (1, (false, SDisconnected, [], Some 0, CConnected, true, false, false))], true, true).
+Proof. vm_compute. reflexivity. Qed.
